@@ -18,6 +18,7 @@ import (
 	"strconv"
 	"strings"
 	"sync"
+	"sync/atomic"
 	"time"
 
 	"github.com/gogo/protobuf/proto"
@@ -704,7 +705,12 @@ func (w *world) judgeServed(stage string, l int) {
 	}
 	rr, err := pd.GetRegionByID(ctx, &pdpb.GetRegionByIDRequest{Header: hdr, RegionId: w.winner.Region.GetId()})
 	if err == nil && rr.GetHeader().GetError() == nil {
-		if rr.Region == nil || !proto.Equal(rr.Region, w.winner.Region) {
+		if rr.Region == nil {
+			// The statement is about what is stored. A leader that took over on another member before
+			// any region heartbeat serves no region at all (its local region storage is only fed by
+			// region sync): counted, not judged here.
+			r.Count("served_first_region_absent_not_judged:"+stage, 1)
+		} else if !proto.Equal(rr.Region, w.winner.Region) {
 			r.Violation("bootstrap:served-region-differs-from-winner:"+stage, fmt.Sprintf("GetRegionByID(%d) returns %v", w.winner.Region.GetId(), rr.Region), w.witness(map[string]interface{}{"stage": stage}))
 			return
 		}
@@ -828,12 +834,30 @@ func bootstrapRound(r *ev.Run, round int, p roundPlan, rng *rand.Rand) {
 	rng.Shuffle(len(jobs), func(a, b int) { jobs[a], jobs[b] = jobs[b], jobs[a] })
 	start := make(chan struct{})
 	var wg sync.WaitGroup
+	// When the leader has just resigned, contenders behave like clients that keep retrying while the
+	// members elect: a refused request is sent again (same payload) until some request succeeded.
+	// The first ones to get through arrive while the new leader is still starting up.
+	var won int32
+	retries := 0
+	if p.PreResign {
+		retries = 400
+	}
 	for _, j := range jobs {
 		wg.Add(1)
 		go func(j job) {
 			defer wg.Done()
 			<-start
-			w.send("race", j.kind, j.via, j.member, j.req)
+			for n := 0; ; n++ {
+				c := w.send("race", j.kind, j.via, j.member, cloneReq(j.req))
+				if c.OK {
+					atomic.StoreInt32(&won, 1)
+				}
+				if c.OK || j.kind != "valid" || n >= retries || atomic.LoadInt32(&won) == 1 {
+					return
+				}
+				w.r.Count("race_requests_retried_during_election", 1)
+				time.Sleep(time.Millisecond)
+			}
 		}(j)
 	}
 	close(start)
@@ -985,6 +1009,7 @@ func bootstrapRound(r *ev.Run, round int, p roundPlan, rng *rand.Rand) {
 	}
 	r.Eval(1)
 	r.Count("bootstrap_rounds", 1)
+	r.Count(fmt.Sprintf("bootstrap_rounds_%d_members", p.Members), 1)
 	w.mu.Lock()
 	nreq := len(w.calls)
 	winVia, winSeq := "", -1
